@@ -631,7 +631,7 @@ fn parse_declaration_list(
         loop 
             invariant_except_break
                 
-                declarations@.len() == i,
+                declarations@.len() == i || parser.pos() == parser.len(),
             invariant
                 
                 parser.wf(), parser.len() == old(parser).len(),
@@ -654,7 +654,7 @@ fn parse_declaration_list(
             let dec = parse_declaration(parser)?;
             match dec {
                 Some(d) => declarations.push(d),
-                None => continue,
+                None => break,
             }
         }
 
